@@ -852,12 +852,70 @@ theorem succ_exists (g : Fragment) (gs : List Fragment) (hl : linked (g :: gs) =
     exact ⟨b, List.mem_cons_of_mem _ hb, hbe⟩
   · exact ⟨g, List.mem_cons_self .., h1.symm⟩
 
+/-- … and every fragment's forward overhang is some fragment's reverse overhang -/
+theorem pred_exists (g : Fragment) (gs : List Fragment) (hl : linked (g :: gs) = true) (hc : lastRev g gs = g.fwd) :
+    ∀ a ∈ g :: gs, ∃ b ∈ g :: gs, b.rev = a.fwd := by
+  intro a ha
+  have h1 : a.fwd ∈ gs.map (·.fwd) ++ [g.fwd] := by
+    rcases List.mem_cons.1 ha with rfl | ha
+    · simp
+    · exact List.mem_append_left _ (List.mem_map.2 ⟨a, ha, rfl⟩)
+  rw [← hc, ← map_rev_eq g gs hl] at h1
+  obtain ⟨b, hb, hbe⟩ := List.mem_map.1 h1
+  exact ⟨b, hb, hbe⟩
+
+/-- a set of oriented fragments in which everyone has a successor and a predecessor survives pruning -/
+theorem subset_pruneN (R : List Oriented)
+    (hs : ∀ o ∈ R, ∃ o' ∈ R, (o'.frag ≠ o.frag ∨ o' = o) ∧ o'.get.fwd = o.get.rev)
+    (hp : ∀ o ∈ R, ∃ o' ∈ R, (o'.frag ≠ o.frag ∨ o' = o) ∧ o'.get.rev = o.get.fwd) :
+    ∀ (n : Nat) (S : List Oriented), (∀ o ∈ R, o ∈ S) → ∀ o ∈ R, o ∈ pruneN n S
+  | 0, _, h => h
+  | n + 1, S, h => by
+    refine subset_pruneN R hs hp n (pruneStep S) (fun o ho => ?_)
+    obtain ⟨o₁, ho₁, d₁, e₁⟩ := hs o ho
+    obtain ⟨o₂, ho₂, d₂, e₂⟩ := hp o ho
+    simp only [pruneStep, List.mem_filter, Bool.and_eq_true, List.any_eq_true, beq_iff_eq, Bool.or_eq_true, bne_iff_ne]
+    exact ⟨h o ho, ⟨o₁, h o₁ ho₁, d₁, e₁⟩, ⟨o₂, h o₂ ho₂, d₂, e₂⟩⟩
+
+/-- every oriented fragment of a ring survives the pruning of dead ends -/
+theorem ring_subset_core {pool : List Fragment} {os : List Oriented} (hr : Ring pool os) : ∀ o ∈ os, o ∈ core pool := by
+  cases os with
+  | nil => exact absurd rfl hr.nonempty
+  | cons o₀ rest =>
+    have hl : linked (o₀.get :: rest.map (·.get)) = true := by simpa using hr.linked
+    have hc : lastRev o₀.get (rest.map (·.get)) = o₀.get.fwd := by
+      have := hr.closes
+      simp only [List.map_cons] at this
+      rw [closes_cons] at this
+      simpa using this
+    have hgets : ∀ a ∈ o₀.get :: rest.map (·.get), ∃ o ∈ (o₀ :: rest : List Oriented), o.get = a := by
+      intro a ha
+      have : a ∈ (o₀ :: rest).map (·.get) := by simpa using ha
+      obtain ⟨o, ho, rfl⟩ := List.mem_map.1 this
+      exact ⟨o, ho, rfl⟩
+    have hmem : ∀ o ∈ (o₀ :: rest : List Oriented), o.get ∈ o₀.get :: rest.map (·.get) := by
+      intro o ho
+      have : o.get ∈ (o₀ :: rest).map (·.get) := List.mem_map.2 ⟨o, ho, rfl⟩
+      simpa using this
+    have hdist : ∀ o ∈ (o₀ :: rest : List Oriented), ∀ o' ∈ (o₀ :: rest : List Oriented), o'.frag ≠ o.frag ∨ o' = o := by
+      intro o ho o' ho'
+      by_cases e : o'.frag = o.frag
+      · exact Or.inr (List.inj_on_of_nodup_map hr.distinct ho' ho e)
+      · exact Or.inl e
+    refine subset_pruneN (o₀ :: rest) (fun o ho => ?_) (fun o ho => ?_) _ _ (fun o ho => mem_orientations.2 (hr.mem o ho))
+    · obtain ⟨b, hb, hbe⟩ := succ_exists _ _ hl hc o.get (hmem o ho)
+      obtain ⟨o', ho', rfl⟩ := hgets b hb
+      exact ⟨o', ho', hdist o ho o' ho', hbe⟩
+    · obtain ⟨b, hb, hbe⟩ := pred_exists _ _ hl hc o.get (hmem o ho)
+      obtain ⟨o', ho', rfl⟩ := hgets b hb
+      exact ⟨o', ho', hdist o ho o' ho', hbe⟩
+
 /-- On a designed pool a ring of the class the code closes (`OneLap`) is simple. -/
 theorem designed_oneLap_simple {pool : List Fragment} (hd : designed pool = true) {f : Fragment} {suf : List Oriented}
     (hr : Ring pool (⟨f, false⟩ :: suf)) (hone : OneLap f suf) : Simple (⟨f, false⟩ :: suf) := by
   simp only [designed, Bool.and_eq_true, List.all_eq_true] at hd
   obtain ⟨⟨_, hnp⟩, hfunc⟩ := hd
-  have hmemO : ∀ o ∈ (⟨f, false⟩ :: suf : List Oriented), o ∈ orientations pool := fun o ho => mem_orientations.2 (hr.mem o ho)
+  have hcore := ring_subset_core hr
   have hl : linked (f :: suf.map (·.get)) = true := by simpa [Oriented.get] using hr.linked
   have hc : lastRev f (suf.map (·.get)) = f.fwd := by
     have := hr.closes
@@ -870,22 +928,12 @@ theorem designed_oneLap_simple {pool : List Fragment} (hd : designed pool = true
     · exact ⟨⟨a, false⟩, List.mem_cons_self .., rfl⟩
     · obtain ⟨o, ho, rfl⟩ := List.mem_map.1 ha
       exact ⟨o, List.mem_cons_of_mem _ ho, rfl⟩
-  have hlive : ∀ o ∈ (⟨f, false⟩ :: suf : List Oriented), live pool o = true := by
-    intro o ho
-    have hoa : o.get ∈ f :: suf.map (·.get) := by
-      rcases List.mem_cons.1 ho with rfl | ho
-      · exact List.mem_cons_self ..
-      · exact List.mem_cons_of_mem _ (List.mem_map.2 ⟨o, ho, rfl⟩)
-    obtain ⟨b, hb, hbe⟩ := succ_exists f _ hl hc o.get hoa
-    obtain ⟨o', ho', rfl⟩ := hgets b hb
-    simp only [live, List.any_eq_true, beq_iff_eq]
-    exact ⟨o', hmemO o' ho', hbe⟩
   have hfun : ∀ a ∈ f :: suf.map (·.get), ∀ b ∈ f :: suf.map (·.get), a.fwd = b.fwd → a.rev = b.rev := by
     intro a ha b hb hab
     obtain ⟨oa, hoa, rfl⟩ := hgets a ha
     obtain ⟨ob, hob, rfl⟩ := hgets b hb
-    have := hfunc oa (hmemO oa hoa) ob (hmemO ob hob)
-    simp only [hlive oa hoa, hlive ob hob, hab, beq_self_eq_true, Bool.and_self, Bool.not_true, Bool.false_or, beq_iff_eq] at this
+    have := hfunc oa (hcore oa hoa) ob (hcore ob hob)
+    simp only [hab, beq_self_eq_true, Bool.not_true, Bool.false_or, beq_iff_eq] at this
     exact this
   have hne : ∀ z ∈ suf.map (·.get), z.fwd ≠ f.fwd := by
     intro z hz
@@ -896,7 +944,7 @@ theorem designed_oneLap_simple {pool : List Fragment} (hd : designed pool = true
   · have : (⟨f, false⟩ :: suf : List Oriented).map (·.junction) = (f :: suf.map (·.get)).map (·.fwd) := by
       simp [Oriented.junction, Oriented.get, List.map_map, Function.comp_def]
     rw [this]; exact hnd
-  · have := hnp o (hmemO o ho)
+  · have := hnp o (hcore o ho)
     simpa using this
 
 end PolyVerif.Ligate
